@@ -8,9 +8,12 @@ from decimal import Decimal
 
 ROOT = os.path.dirname(os.path.dirname(os.path.abspath(__file__)))
 SPEC = os.path.join(ROOT, "spec")
-HARNESS = os.path.join(ROOT, "harness")
-WORK = os.path.join(ROOT, "work")
-EVID = os.path.join(ROOT, "evidence")
+# developer overrides (bin/seedmatrix --scratch): a scratch copy of the repository with its own copy of the harness, so that seeded
+# changes can be tried while /repo itself is in use.  The registered commands never set them: they always build from /repo.
+REPO = os.environ.get("VERIF_DEV_REPO", "/repo")
+HARNESS = os.environ.get("VERIF_DEV_HARNESS", os.path.join(ROOT, "harness"))
+WORK = os.environ.get("VERIF_DEV_WORK", os.path.join(ROOT, "work"))
+EVID = os.environ.get("VERIF_DEV_EVIDENCE", os.path.join(ROOT, "evidence"))
 REPLAYS = os.path.join(EVID, "replays")
 JAR = "/opt/veriftools/tla/tla2tools.jar:/opt/veriftools/tla/CommunityModules-deps.jar"
 NCPU = os.cpu_count() or 4
@@ -30,7 +33,7 @@ def build_harness(checked=False):
     os.makedirs(WORK, exist_ok=True)
     lock = os.path.join(HARNESS, "Cargo.lock")
     if not os.path.exists(lock):
-        shutil.copy("/repo/Cargo.lock", lock)
+        shutil.copy(REPO + "/Cargo.lock", lock)
     cmd = ["cargo", "build", "--offline", "--quiet"]
     if checked:
         cmd += ["--profile", "checked"]
@@ -39,7 +42,7 @@ def build_harness(checked=False):
     p = subprocess.run(cmd, cwd=HARNESS, env=env, stdout=subprocess.PIPE, stderr=subprocess.STDOUT, text=True)
     if p.returncode != 0:
         # a stale lock file (dependencies of /repo changed) is repaired once from /repo's own
-        shutil.copy("/repo/Cargo.lock", lock)
+        shutil.copy(REPO + "/Cargo.lock", lock)
         p = subprocess.run(cmd, cwd=HARNESS, env=env, stdout=subprocess.PIPE, stderr=subprocess.STDOUT, text=True)
         if p.returncode != 0:
             raise ToolError("cargo build of the harness failed:\n" + p.stdout[-4000:])
@@ -51,7 +54,7 @@ def build_jawk_bin():
     """Build the real jawk executable from /repo into the harness target dir (C20)."""
     tdir = os.path.join(HARNESS, "target", "jawkbin")
     env = dict(os.environ, CARGO_NET_OFFLINE="true")
-    p = subprocess.run(["cargo", "build", "--offline", "--quiet", "--manifest-path", "/repo/Cargo.toml",
+    p = subprocess.run(["cargo", "build", "--offline", "--quiet", "--manifest-path", REPO + "/Cargo.toml",
                         "--target-dir", tdir, "--bin", "jawk"],
                        env=env, stdout=subprocess.PIPE, stderr=subprocess.STDOUT, text=True)
     if p.returncode != 0:
